@@ -1756,6 +1756,25 @@ pub fn fam_block_boundaries(cfg: &Config, flags: Flags) -> (Report, Vec<u8>) {
 		let delta = (i % 13) as isize - 6;
 		let at = (b as isize + delta) as usize; // offset of the first byte of the character
 		let mut n = 0u64;
+		// a run of blanks (and a blank run followed by a wrong character) straddling that offset
+		for shape in 0..3 {
+			let mut doc: Vec<u8> = Vec::with_capacity(at + 64);
+			doc.push(b'[');
+			while doc.len() + 12 < at {
+				doc.extend_from_slice(b"10,");
+			}
+			doc.extend_from_slice(b"1");
+			while doc.len() < at + 9 {
+				doc.extend_from_slice(b" \n\t ");
+			}
+			doc.extend_from_slice(match shape {
+				0 => &b",2]"[..],
+				1 => &b"]"[..],
+				_ => &b"x]"[..],
+			});
+			mon.input(name, &doc);
+			n += 1;
+		}
 		// an ASCII-only head of that many bytes, then an ill-formed sequence (lone continuation byte, 0xFF,
 		// truncated lead byte at the very end, overlong form), inside a string and between items
 		for bad in [&[0x80u8][..], &[0xff], &[0xc3], &[0xc0, 0xaf], &[0xed, 0xa0, 0x80]] {
